@@ -54,6 +54,10 @@ PANEL_TRANSFORMERS = {
     "Rocket": {"num_kernels": [20, 50], "normalise": [True, True, False]},
     "MiniRocket": {"num_features": [84]},
     "PCATransformer": {"n_components": [2, 3]},
+    "MiniRocketMultivariate": {"num_features": [84]},
+    "IntervalSegmenter": {"intervals": [2, 3]},
+    "FeatureUnion": {}, "SeriesToSeriesRowTransformer": {}, "SeriesToPrimitivesRowTransformer": {},
+    "FittedParamExtractor": {},
 }
 CLASSIFIERS = {
     "TimeSeriesForestClassifier": {"n_estimators": [3, 5], "min_interval": [3]},
@@ -156,8 +160,18 @@ def generate(prop, rng, tier):
         if name in ("Rocket", "MiniRocket", "PCATransformer"):
             scen["container"] = rng.choice(["nested_series", "numpy3d", "numpy3d"])
             scen["panel"]["cols"] = 1
+        if name == "MiniRocketMultivariate":
+            scen["container"] = rng.choice(["nested_series", "numpy3d"])
+            scen["panel"]["cols"] = 2
+        if name in ("FeatureUnion", "SeriesToSeriesRowTransformer", "SeriesToPrimitivesRowTransformer",
+                    "FittedParamExtractor", "IntervalSegmenter"):
+            scen["container"] = "nested_series"
+            scen["panel"]["cols"] = 1
         calls = [{"m": "transform", "which": rng.choice(["train", "test", "test", "long"])}
                  for _ in range(rng.randint(3, 6))]
+        if name in ("FeatureUnion", "SeriesToSeriesRowTransformer", "SeriesToPrimitivesRowTransformer",
+                    "FittedParamExtractor", "IntervalSegmenter"):
+            calls = [c for c in calls if c["which"] != "long"] or [{"m": "transform", "which": "test"}]
         if name in ("PaddingTransformer", "TruncationTransformer") and rng.random() < 0.6:
             w = rng.choice(["train", "test"])
             calls += [{"m": "transform", "which": w}, {"m": "transform", "which": "long"},
@@ -324,6 +338,20 @@ def build_named(name, params, n_jobs, random_state, shared=False):
             kw["n_jobs"] = sig["n_jobs"].default  # documented as int (BOSS family)
     if "random_state" in sig:
         kw["random_state"] = random_state
+    if name == "FeatureUnion":
+        from sktime.transformations.panel.dictionary_based import PAA
+        from sktime.transformations.panel.slope import SlopeTransformer
+        kw["transformer_list"] = [("p", PAA(num_intervals=2)), ("s", SlopeTransformer(num_intervals=2))]
+        kw.pop("n_jobs", None)
+    if name == "SeriesToSeriesRowTransformer":
+        from sklearn.preprocessing import StandardScaler
+        kw.update(transformer=StandardScaler(), check_transformer=False)
+    if name == "SeriesToPrimitivesRowTransformer":
+        from sklearn.preprocessing import FunctionTransformer
+        kw.update(transformer=FunctionTransformer(func=np.mean, validate=False), check_transformer=False)
+    if name == "FittedParamExtractor":
+        from sktime.forecasting.exp_smoothing import ExponentialSmoothing
+        kw.update(forecaster=ExponentialSmoothing(), param_names=["initial_level"])
     if name == "ColumnEnsembleClassifier":
         from sktime.classification.interval_based import TimeSeriesForestClassifier
         if shared:
